@@ -46,6 +46,12 @@ impl A {
             _ => panic!("not a u64: {self:?}"),
         }
     }
+    pub fn c(&self) -> char {
+        match self {
+            A::C(c) => *c,
+            _ => panic!("not a char: {self:?}"),
+        }
+    }
     pub fn show(&self) -> String {
         match self {
             A::S(s) => format!("{s:?}"),
